@@ -704,6 +704,8 @@ func (w *World) Apply(op Op) *Step {
 			c := make(chan *rmevent.Result, 2)
 			w.CC.VerifConfigUpdate(&rmevent.RMConfigUpdateEvent{RmID: RMID, PolicyGroup: PolicyGroup, Config: s.Configs[op.N], ExtraConfig: s.ExtraConfig, Channel: c})
 			result = <-c
+			// partitions added by the reload start their manager goroutines: stop them like the initial ones
+			w.CC.VerifStopManagers()
 		}
 		st := w.Run(op, f)
 		if result != nil {
